@@ -102,6 +102,8 @@ def _same(a, b, t, scale=1.0):
         return int(a) == int(b)
     if t == "bool":
         return bool(a) == bool(b)
+    if t == "obool":
+        return (a is None and b is None) or (a is not None and b is not None and bool(a) == bool(b))
     return a == b
 
 
@@ -196,6 +198,10 @@ def validate(ctx, groups, rng):
                 else:
                     lean_vals = []
                     for ty in ot:
+                        if ty == "obool":
+                            tk = t.tok()
+                            lean_vals.append(None if tk == "none" else tk == "1")
+                            continue
                         lean_vals.append(t.flt() if ty == "num" else (int(t.tok()) if ty == "int" else (t.tok() == "1" if ty == "bool" else t.tok())))
                     scale = max([1.0] + [abs(float(v)) for v in inp.values() if isinstance(v, (float, np.floating)) and math.isfinite(float(v))]
                                 + [abs(x) for x in lits])
